@@ -61,3 +61,35 @@ package cluster
 //@   property C13
 //@ lemma owner_after_remove(key string, A []string, B []string, s string, oa string, ob string): subset(B, A) && forall(i, 0, len(A), A[i] == s || member(B, A[i])) && distinctScores(key, A) && isOwner(key, A, oa) && isOwner(key, B, ob) && oa != s ==> ob == oa
 //@   property C13
+
+// ---- fan-out bookkeeping (property C17) ----
+// The two comparator literals are bytes.Compare on two 16-byte ids: assumed (trusted) to return 0
+// exactly for equal ids and to be the sign of one fixed strict total order uuidLess.
+//@ spec uuidLess(a uuid.UUID, b uuid.UUID) bool
+
+//@ func curateFailedPoints$1
+//@   property C17
+//@   trusted
+//@   pure
+//@   ensures (result == 0) == (a == b) && (result < 0) == uuidLess(a, b) && (result > 0) == uuidLess(b, a)
+
+//@ func curateFailedPoints$2
+//@   property C17
+//@   trusted
+//@   pure
+//@   ensures (result == 0) == (a == b) && (result < 0) == uuidLess(a, b) && (result > 0) == uuidLess(b, a)
+
+//@ spec memberU(S []uuid.UUID, id uuid.UUID) bool = exists(i, 0, len(S), S[i] == id)
+
+//@ func curateFailedPoints
+//@   property C17
+//@   requires len(successIds) <= len(allIds)
+//@   ensures forall(k, 0, len(result), memberU(allIds, result[k].Id))
+//@   ensures forall(k, 0, len(result), !memberU(successIds, result[k].Id))
+//@   ensures forall(i, 0, len(allIds), !memberU(successIds, allIds[i]) ==> exists(k, 0, len(result), result[k].Id == allIds[i]))
+//@   ensures isCompleteResponse ==> forall(k, 0, len(result), result[k].Err == "not found")
+//@   loop 1 invariant rangeindex >= -1 && rangeindex < len(allIds) && len(failedPoints) <= rangeindex + 1
+//@   loop 1 invariant forall(k, 0, len(failedPoints), memberU(allIds, failedPoints[k].Id))
+//@   loop 1 invariant forall(k, 0, len(failedPoints), !memberU(successIds, failedPoints[k].Id))
+//@   loop 1 invariant forall(k, 0, len(failedPoints), failedPoints[k].Err == errMessage)
+//@   loop 1 invariant forall(i, 0, rangeindex+1, !memberU(successIds, allIds[i]) ==> exists(k, 0, len(failedPoints), failedPoints[k].Id == allIds[i]))
